@@ -33,6 +33,10 @@ def parse_cli(line):
     if ents != "-":
         for item in ents.split(";"):
             mm = re.match(r"(\d+)(dead|(p\d+)?:m(\d):h([^:]+):(.*))$", item)
+            if mm is None:
+                # the client maps a server entity the harness has no id for (it never existed on the server)
+                parsed.setdefault(-1, dict(dead=False, pre=None, marker=True, last=None, comps={}, bogus=item))
+                continue
             e = int(mm.group(1))
             if mm.group(2) == "dead":
                 parsed[e] = dict(dead=True)
@@ -503,6 +507,9 @@ class Trace:
                     ses = session[c]
                     if not ok:
                         self.add("C03", i, "client %d entity map is not a consistent two-way map" % c)
+                    if -1 in ents:
+                        for p_ in ("C03", "C01"):
+                            self.add(p_, i, "client %d maps a server entity that never existed on the server: %s" % (c, ents[-1].get("bogus")))
                     if ses["extras"] is None:
                         ses["extras"] = list(extra)
                     elif len(extra) > len(ses["extras"]):
